@@ -7,6 +7,9 @@ def text_edit(old, new):
         return src.replace(old, new, 1) if old in src else None
     return edit
 MUTANTS = [
+    Mutant('mod_one_arg', C, text_edit("        return f'MOD({self.doprint(expr.args[0])},{self.doprint(expr.args[1])})'", "        return f'MOD({self.doprint(expr.args[0])})'"), 'B8', 'second argument of MOD dropped'),
+    Mutant('gamln_as_loggamma', C, text_edit("        return f'GAMLN({self.doprint(expr.args[0])})'", "        return f'LOGGAMMA({self.doprint(expr.args[0])})'"), 'B8', 'not an NM-TRAN function'),
+    Mutant('reciprocal_str', C, text_edit('            base = self.parenthesize(expr.base, sympy_printing.str.precedence(expr))\n            return f"1/{base}"', '            return f"1/({expr.base})"'), 'B9', 'base formatted by the default printer'),
     Mutant('des_branch_without_map', 'src/pharmpy/model/external/nonmem/update.py', text_edit("        newmap = new_compartmental_map(new)\n        model = model.replace(internals=model.internals.replace(compartment_map=newmap))\n", ""), 'B5', '$DES branch keeps the stale map'),
     Mutant('model_record_early_return', 'src/pharmpy/model/external/nonmem/update.py', text_edit("    replace_dict: dict[str, Any] = {'compartment_map': newmap}\n", "    replace_dict: dict[str, Any] = {'compartment_map': newmap}\n    if oldmap == newmap and not model.internals.control_stream.get_records('MODEL'):\n        return model\n"), 'B5', 'early return after computing the map'),
     Mutant('group_regenerates_only_kept', 'src/pharmpy/model/external/nonmem/records/code_record.py', text_edit("new_statements = [s for s, op in zip(statements, operations) if op != -1]", "new_statements = [s for s, op in zip(statements, operations) if op == 0]"), 'B6', 'replacement statement dropped'),
